@@ -163,7 +163,9 @@ fn pool(dir: &Path) -> Pool {
     ] {
         values.push(jstr(&s));
     }
-    for v in ["null", "true", "0", "1", "-1", "3", "1577836800", "[]", "[0, 1]", "{}", "[2020, 0, 1, 0, 0, 0, 3, 0]"] {
+    // (no large numbers here: combinations($n), jn($n; x) and the like do work proportional to a numeric argument;
+    // epoch-sized numbers are given to the time filters in their own sub-check)
+    for v in ["null", "true", "0", "1", "-1", "3", "12", "[]", "[0, 1]", "{}", "[2020, 0, 1, 0, 0, 0, 3, 0]"] {
         values.push(v.to_string());
     }
     values.push(format!("[{}, {}]", jstr(&c), jstr("/etc/passwd")));
@@ -223,7 +225,7 @@ fn batch_case(i: u64, sample: bool, root: &Path, calls_per_batch: usize, tuples:
     let _ = std::fs::write(dir.join("prog.jq"), &prog);
     let _ = std::fs::write(dir.join("in.json"), "null\n\"second value\"\n");
     let case = |e: &str| json!({"batch": i, "command": "jaq -c -f prog.jq in.json", "calls": entries.iter().map(|(_, e)| e.clone()).collect::<Vec<_>>(), "note": e});
-    vcore::runner::note_case(|| format!("C06 batch {i}: {}", entries.iter().map(|(_, e)| e.as_str()).collect::<Vec<_>>().join(" ;; ").chars().take(3000).collect::<String>()));
+    vcore::runner::note_case(|| format!("C06 batch {i} callables {:?}: {}", { let mut n: Vec<&str> = entries.iter().map(|(n, _)| n.as_str()).collect(); n.dedup(); n }, entries.iter().map(|(_, e)| e.as_str()).collect::<Vec<_>>().join(" ;; ").chars().take(3000).collect::<String>()));
     let r = traced(&dir, &["-c".into(), "-f".into(), "prog.jq".into(), "in.json".into()], &["in.json".into()], &[]).map_err(|e| CaseFail::new("harness-spawn", e.to_string(), json!({})))?;
     let intact = canary_intact(&p, &dir);
     let _ = std::fs::remove_dir_all(&dir);
